@@ -275,6 +275,9 @@ def _bodies(conds: List[str]) -> List[str]:
         out.append(f"def f(x, y):\n    if {c1}:\n        return R0\n    elif {c2}:\n        return R1\n    else:\n        return R2\n")
         out.append(f"def f(x, y):\n    if {c1}:\n        if {c2}:\n            return R0\n        else:\n            show_error('e1')\n            return R1\n    else:\n        return R2\n")
         out.append(f"def f(x, y):\n    if {c1}:\n        show_error('e0')\n    if {c2}:\n        return R1\n    return R2\n")
+        # a nested if that returns in one arm and falls through in the other, inside an if whose else returns: the
+        # fall-through must reach the statements after the outer if
+        out.append(f"def f(x, y):\n    if {c1}:\n        if {c2}:\n            return R0\n    else:\n        return R1\n    show_error('e1')\n    return R2\n")
         # a partially matching early return followed by a complete if/else (sequence of statements)
         out.append(f"def f(x, y):\n    if {c1}:\n        return R0\n    if {c2}:\n        return R1\n    else:\n        show_error('e1')\n        return R2\n")
     return out
@@ -320,7 +323,10 @@ def cases(tier: str, seed: int) -> List[Case]:
     pinned_lit = ("def f(x, y):\n    if x == LIT and y is None:\n        return R0\n    elif x == LIT:\n        return R1\n    else:\n        return R2\n")
     pinned_perm = ("def f(x, y):\n    if is_of_type(x, A0, exclude_any=False):\n        show_error('e0')\n        return R0\n"
                    "    else:\n        return R1\n")
-    for tag, body, x, y in (("seq", pinned_seq, ["union", 0, 1], ["union", 1, 2]), ("seq2", pinned_seq, ["union", 0, 2], ["union", 0, 1]),
+    pinned_nest = ("def f(x, y):\n    if is_of_type(x, A0):\n        if is_of_type(y, A1):\n            return R0\n    else:\n        return R1\n"
+                   "    show_error('e1')\n    return R2\n")
+    for tag, body, x, y in (("nest", pinned_nest, ["union", 0, 1], ["union", 1, 2]), ("nest2", pinned_nest, ["union", 0, 2], ["union", 0, 1]),
+                            ("seq", pinned_seq, ["union", 0, 1], ["union", 1, 2]), ("seq2", pinned_seq, ["union", 0, 2], ["union", 0, 1]),
                             ("perm", pinned_perm, ["anyunion", 2], ["atom", 0]), ("perm1", pinned_perm, ["anyunion", 1], ["atom", 0]),
                             ("and", pinned_body, ["union", 0, 1], ["union", 1, 2]), ("or", pinned_or, ["union", 0, 2], ["union", 1, 2]),
                             ("and2", pinned_body, ["union", 0, 2], ["union", 0, 1]), ("lit", pinned_lit, ["lit2"], ["litunion"])):
